@@ -535,7 +535,11 @@ def _check_decimal(
 ) -> pd.Series:
     series_cls = type(pandas_obj)  # support non-pandas series (modin, etc.)
     if pandas_obj.isnull().all():
-        return series_cls(np.full_like(pandas_obj, True), dtype=np.bool_)
+        return series_cls(
+            np.full_like(pandas_obj, True),
+            dtype=np.bool_,
+            index=pandas_obj.index,
+        )
 
     is_decimal = pandas_obj.apply(
         lambda x: isinstance(x, decimal.Decimal)
